@@ -84,10 +84,16 @@ func evalProg(p *Prog, goAlways bool) *progEval {
 	defer func() { tVM.Add(int(time.Since(t0).Milliseconds())) }()
 	ev.GoOut = goOut
 	ev.VMOut = make([][]string, len(p.Fns))
+	cstats.add(c.script)
+	progMeta := c.metaProg(p)
 	for i := range p.Fns {
 		f := &p.Fns[i]
 		var first *mismatch
-		if d := c.metaCheck(f); d != "" {
+		if i == 0 && len(progMeta) > 0 {
+			// a disagreement about the contract as a whole is reported with the file's first function
+			first = &mismatch{Fn: i, Kind: "meta", Diag: progMeta[0]}
+			ev.Outcome["MISMATCH-meta"]++
+		} else if d := c.metaCheck(f); d != "" {
 			first = &mismatch{Fn: i, Kind: "meta", Diag: d}
 			ev.Outcome["MISMATCH-meta"]++
 		}
